@@ -50,6 +50,12 @@ def wrap(v, t):
 
 
 def binop(op, a, b, t):
+    # a descriptor / pid token compares like a small positive integer
+    if op in ('==', '!=', '<', '<=', '>', '>='):
+        if isinstance(a, tuple) and a and a[0] in ('fd', 'pid') and isinstance(b, int):
+            a = 3
+        elif isinstance(b, tuple) and b and b[0] in ('fd', 'pid') and isinstance(a, int):
+            b = 3
     try:
         if op == '+': r = a + b
         elif op == '-': r = a - b
